@@ -1332,8 +1332,9 @@ def summarize_mutation(trees):
     return summ
 
 
-def _call_may_change(call, operand_names):
-    """may this call change an object bound to one of operand_names (handed as argument or used as receiver)?"""
+def _call_may_change(call, operand_names, length_only=False):
+    """may this call change an object bound to one of operand_names (handed as argument or used as receiver)?
+    length_only: the value in question depends on the operand only through len(): handing an ELEMENT of it to a callee cannot change that"""
     f_ = call.func
     nm = f_.id if isinstance(f_, ast.Name) else (f_.attr if isinstance(f_, ast.Attribute) else None)
     if nm in _BUILTIN_READONLY or (isinstance(f_, ast.Attribute) and nm and nm.startswith(("is_", "has_", "starts", "ends", "isnumeric", "isalpha", "isdigit"))):
@@ -1344,6 +1345,9 @@ def _call_may_change(call, operand_names):
     for k, a_ in enumerate(call.args):
         names = {n_.id for n_ in ast.walk(a_) if isinstance(n_, ast.Name)} & operand_names
         if not names:
+            continue
+        if length_only and isinstance(a_, ast.Subscript) and isinstance(a_.value, ast.Name) and not isinstance(a_.slice, ast.Slice) and \
+                not ({n_.id for n_ in ast.walk(a_.slice) if isinstance(n_, ast.Name)} & operand_names):
             continue
         if summ is None or nm not in summ or not isinstance(a_, ast.Name):
             return True
@@ -1672,7 +1676,7 @@ def _named_values(fn, self_unstable=None):
                             dirty = True
                         elif isinstance(x, ast.Name) and isinstance(x.ctx, ast.Store) and x.id in rhs_names:
                             dirty = True
-                        elif content_dependent and isinstance(x, ast.Call) and _call_may_change(x, content_names):
+                        elif content_dependent and isinstance(x, ast.Call) and _call_may_change(x, content_names, length_only=not any(isinstance(y, ast.Subscript) for y in ast.walk(st.value))):
                             # the value depends on the CONTENTS of an object (len / element) and this call may change that object
                             dirty = True
                 # a use inside a loop body that also mutates the operands later in the same iteration would see the old value: require the loop-free case
@@ -2427,8 +2431,8 @@ def _unroll_literal_loops(fn):
             if not (isinstance(lp.target, ast.Name) or (isinstance(lp.target, ast.Tuple) and all(isinstance(x, ast.Name) for x in lp.target.elts))):
                 continue
             body_nodes = [x for s_ in lp.body for x in ast.walk(s_)]
-            if any(isinstance(x, (ast.Break, ast.Continue, ast.Return, ast.Yield, ast.YieldFrom) + FUNC + (ast.Lambda,)) for x in body_nodes):
-                continue
+            if any(isinstance(x, (ast.Break, ast.Continue, ast.Yield, ast.YieldFrom) + FUNC + (ast.Lambda,)) for x in body_nodes):
+                continue          # (a `return` in the body is fine: the copies run in the same order)
             stored_in_body = {x.id for x in body_nodes if isinstance(x, ast.Name) and isinstance(x.ctx, (ast.Store, ast.Del))}
             entry_names = {x.id for e in entries for x in ast.walk(e) if isinstance(x, ast.Name)}
             if stored_in_body & (entry_names | set(tnames)):
@@ -3415,6 +3419,7 @@ def _module_constants(tree):
     """names bound exactly once, at module level, to an int / str literal (also through `A, B = 0, 1`) and never rebound anywhere"""
     cands, stores = {}, {}
     klasses = {c.name for c in tree.body if isinstance(c, ast.ClassDef)}
+    fnames = {c.name for c in tree.body if isinstance(c, FUNC)} | {a_.asname or a_.name for n_ in tree.body if isinstance(n_, ast.ImportFrom) for a_ in n_.names}
     for n in ast.walk(tree):
         if isinstance(n, ast.Name) and isinstance(n.ctx, (ast.Store, ast.Del)):
             stores[n.id] = stores.get(n.id, 0) + 1
@@ -3440,6 +3445,9 @@ def _module_constants(tree):
                 elif isinstance(a, ast.Name) and a.id.lstrip("_").isupper() and isinstance(b, ast.Tuple) and 0 < len(b.elts) <= 12 and \
                         all(isinstance(e, ast.Constant) and isinstance(e.value, (str, int)) and not isinstance(e.value, bool) for e in b.elts):
                     cands[a.id] = b           # a fixed tuple of literals (x in _PUNCTUATION)
+                elif isinstance(a, ast.Name) and a.id.lstrip("_").isupper() and isinstance(b, ast.Tuple) and 0 < len(b.elts) <= 4 and \
+                        all(isinstance(e, ast.Tuple) and 0 < len(e.elts) <= 4 and all(isinstance(x, ast.Constant) or (isinstance(x, ast.Name) and x.id in fnames) for x in e.elts) for e in b.elts):
+                    cands[a.id] = b           # a small fixed table of (literal | module-level function) rows: loops over it are unrolled (N15)
     return {k: v for k, v in cands.items() if stores.get(k, 0) == 1}
 
 
